@@ -283,12 +283,21 @@ func (p *Prog) abstractArg(ctx *symCtx, setter string, t types.Type, variant int
 		}
 		// variadic / list of aggregates or strings: two elements
 		n := int64(2)
+		var strLens []int64
+		if st, _ := p.cache["stretch"].(int64); st > 0 && setter == "AddUserProp" {
+			strLens = userPropLens(st)
+			n = int64(len(strLens))
+		}
 		for k := int64(0); k < n; k++ {
 			ep := fmt.Sprintf("%s[%d]", tag, k)
 			switch eu := u.Elem().Underlying().(type) {
 			case *types.Basic:
 				if eu.Info()&types.IsString != 0 {
 					ctx.mem[ep] = sv{k: 's', i: 1, addr: ep}
+					if strLens != nil {
+						ctx.mem[ep] = sv{k: 's', i: strLens[k], addr: ep}
+						continue
+					}
 					if k%2 == 1 && variant%2 == 1 {
 						// key/value lists: every second element (a value) is the empty string in the variant states
 						ctx.mem[ep] = sv{k: 's', i: 0, addr: ep}
@@ -304,6 +313,11 @@ func (p *Prog) abstractArg(ctx *symCtx, setter string, t types.Type, variant int
 						ctx.mem[fp] = sv{k: 's', i: 1, addr: fp}
 					} else if bt, ok := ft.Underlying().(*types.Basic); ok && bt.Info()&types.IsInteger != 0 {
 						ctx.mem[fp] = sv{k: 'i', i: k + 1}
+						if variant%2 == 0 && k == 1 && p.U.Sizes.Sizeof(bt) == 1 {
+							// option bytes: the plain value 0 (QoS 0, nothing else) in the second element — a byte
+							// that must be written although it is zero
+							ctx.mem[fp] = sv{k: 'i', i: 0}
+						}
 						if variant%2 == 1 && p.U.Sizes.Sizeof(bt) == 1 {
 							// option bytes: the largest valid combinations (retain handling 2, RAP, NL, QoS 2 / QoS 1)
 							ctx.mem[fp] = sv{k: 'i', i: 0x2E - k}
@@ -871,6 +885,15 @@ func (p *Prog) decoderReplay(tn string, header sv, toks []wireToken, total int64
 				dv, okW = sv{k: 's', i: w - 2, addr: "spec:any"}, w >= 2
 			case "raw":
 				dv = sv{k: 's', i: w, addr: "spec:any"}
+			case "pair":
+				// two length-prefixed strings in w bytes: an empty key and a value of w-4 bytes
+				okW = w >= 4
+				if okW {
+					ap := fmt.Sprintf("SPECANYPAIR%d", w)
+					c.mem[ap+"[0]"] = sv{k: 's', i: 0, addr: "spec:anyk"}
+					c.mem[ap+"[1]"] = sv{k: 's', i: w - 4, addr: "spec:anyv"}
+					dv = sv{k: 'S', addr: ap}
+				}
 			default:
 				okW = false
 			}
@@ -1137,6 +1160,7 @@ type stateSpec struct {
 	qos       int64 // > 0: SetQoS is called with this value (3: malformed but constructible)
 	intOnly   bool  // the bias applies to integer arguments only
 	emptyList bool  // the payload list (filters, reason codes) stays empty
+	stretch   int64 // > 0: the user properties added by AddUserProp occupy this many bytes more than the usual two one-byte strings
 }
 
 // boundaryValues: the boundary lengths named by the properties' quantifiers (C01: 0, 1, 127, 128, 16 383, 16 384,
@@ -1256,7 +1280,41 @@ func (p *Prog) buildStateSpec(tn string, spec stateSpec, choose func(string) int
 		p.cache["forceqos"] = spec.qos
 		defer delete(p.cache, "forceqos")
 	}
+	if spec.stretch > 0 {
+		p.cache["stretch"] = spec.stretch
+		defer delete(p.cache, "stretch")
+	}
 	return p.buildState(tn, choose, will)
+}
+
+// userPropLens: key/value lengths for AddUserProp that occupy `extra` bytes more on the wire than one pair of
+// one-byte strings: the first value grows (up to 65 535 bytes), then further pairs are added (identifier, two
+// length prefixes and a one-byte key cost 6 bytes each).
+func userPropLens(extra int64) []int64 {
+	lens := []int64{1, 1}
+	g := extra
+	if g > 65534 {
+		g = 65534
+	}
+	lens[1] += g
+	extra -= g
+	for extra > 0 {
+		if extra < 6 {
+			need := 6 - extra
+			if lens[1] < need {
+				break
+			}
+			lens[1] -= need
+			extra = 6
+		}
+		vl := extra - 6
+		if vl > 65535 {
+			vl = 65535
+		}
+		lens = append(lens, 1, vl)
+		extra -= 6 + vl
+	}
+	return lens
 }
 
 // MQTT domain knowledge used to stay inside the C01 domain (keyed by exported
